@@ -20,6 +20,7 @@ package main
 import (
 	"encoding/json"
 	"fmt"
+	"hash/fnv"
 	"os"
 	"runtime"
 	"sort"
@@ -940,10 +941,123 @@ func c06Random(g *c06Gen, avoidListed bool) c06Hist {
 	return h
 }
 
+// bounded-exhaustive histories (thorough tier): every sequence of `depth` letters over an alphabet
+// of instantiated operations. A letter = (template, first variable, assign-back?); variables range
+// over the pool {a, b = (cdr a), d = a, f = an unrelated list} and "the previous result"; the second
+// variable of two-list operations is f (or a when the first is f). Results go to fresh variables
+// r1 r2 … (or back to the first variable). Sequences containing the construct of a listed finding
+// are pruned. emit is called with batches.
+type c06Letter struct {
+	t    c06Tmpl
+	v1   string // a b d f or "$last"
+	back bool   // assign the result to the first variable instead of a fresh one
+}
+
+func c06Alphabet(templates []string, vars []string, backOps map[string]bool) []c06Letter {
+	var out []c06Letter
+	for _, t := range c06Templates {
+		key := t.op + ":" + strings.Join(t.args, ",")
+		use := false
+		for _, k := range templates {
+			if k == key {
+				use = true
+			}
+		}
+		if !use {
+			continue
+		}
+		for _, v := range vars {
+			out = append(out, c06Letter{t, v, false})
+			if backOps[t.op] && v != "$last" && !c06Ops[t.op].atomRes {
+				out = append(out, c06Letter{t, v, true})
+			}
+		}
+	}
+	return out
+}
+
+func c06Exhaustive(alpha []c06Letter, depth int, flavours []int, avoidListed bool, batch int, emit func([]c06Hist)) int {
+	total := 0
+	var buf []c06Hist
+	flush := func() {
+		if len(buf) > 0 {
+			emit(buf)
+			buf = nil
+		}
+	}
+	for _, fl := range flavours {
+		var prefix []c06Step
+		prefix = append(prefix, c06Base("a", fl)...)
+		prefix = append(prefix, c06Step{Target: "b", Op: "cdr", Args: []string{"a"}},
+			c06Step{Target: "d", Op: "alias", Args: []string{"a"}})
+		prefix = append(prefix, c06Base("f", (fl+2)%c06Flavours)...)
+		idx := make([]int, depth)
+		for {
+			g := &c06Gen{}
+			h := c06Hist{Setup: len(prefix)}
+			h.Steps = append(h.Steps, prefix...)
+			fams := newC06Families()
+			for _, st := range prefix {
+				fams.apply(st)
+			}
+			last := "a"
+			ok := true
+			for i := 0; i < depth; i++ {
+				l := alpha[idx[i]]
+				v1 := l.v1
+				if v1 == "$last" {
+					v1 = last
+				}
+				v2 := "f"
+				if v1 == "f" {
+					v2 = "a"
+				}
+				target := fmt.Sprintf("r%d", i+1)
+				if l.back {
+					target = v1
+				}
+				st := l.t.inst(g, target, v1, v2)
+				if avoidListed && fams.listed(st) {
+					ok = false
+					break
+				}
+				fams.apply(st)
+				h.Steps = append(h.Steps, st)
+				if st.Target != "-" {
+					last = st.Target
+				}
+			}
+			if ok {
+				buf = append(buf, h)
+				total++
+				if len(buf) >= batch {
+					flush()
+				}
+			}
+			// next index vector
+			k := depth - 1
+			for k >= 0 {
+				idx[k]++
+				if idx[k] < len(alpha) {
+					break
+				}
+				idx[k] = 0
+				k--
+			}
+			if k < 0 {
+				break
+			}
+		}
+	}
+	flush()
+	return total
+}
+
 // ---------------------------------------------------------------------------------------------
 // running a batch: implementation (parallel over fresh scopes), then the model, then the judge
 
 type c06Result struct {
+	key     string // hash of the request (history + observations): distinctness key
 	hist    c06Hist
 	obs     []c06Obs
 	request string
@@ -951,14 +1065,13 @@ type c06Result struct {
 	verdict c06Verdict
 }
 
-func c06RunBatch(c *lib.Ctx, hists []c06Hist, workers int) []c06Result {
-	res := make([]c06Result, len(hists))
+func c06Parallel(n, workers int, fn func(lo, hi int)) {
 	var wg sync.WaitGroup
-	chunk := (len(hists) + workers - 1) / workers
+	chunk := (n + workers - 1) / workers
 	for w := 0; w < workers; w++ {
 		lo, hi := w*chunk, (w+1)*chunk
-		if hi > len(hists) {
-			hi = len(hists)
+		if hi > n {
+			hi = n
 		}
 		if lo >= hi {
 			break
@@ -966,32 +1079,50 @@ func c06RunBatch(c *lib.Ctx, hists []c06Hist, workers int) []c06Result {
 		wg.Add(1)
 		go func(lo, hi int) {
 			defer wg.Done()
-			for i := lo; i < hi; i++ {
-				res[i].hist = hists[i]
-				res[i].obs = c06RunImpl(hists[i])
-				res[i].request = c06Request(hists[i], res[i].obs)
-			}
+			fn(lo, hi)
 		}(lo, hi)
 	}
 	wg.Wait()
+}
+
+func c06RunBatch(c *lib.Ctx, hists []c06Hist, workers int) []c06Result {
+	res := make([]c06Result, len(hists))
+	c06Parallel(len(hists), workers, func(lo, hi int) {
+		for i := lo; i < hi; i++ {
+			res[i].hist = hists[i]
+			res[i].obs = c06RunImpl(hists[i])
+			res[i].request = c06Request(hists[i], res[i].obs)
+		}
+	})
 	reqs := make([]string, len(res))
 	for i := range res {
 		reqs[i] = res[i].request
 	}
 	replies := c06ModelParallel(c, reqs, workers)
-	for i := range res {
-		rp, err := c06ParseReply(replies[i])
-		if err != nil {
-			fmt.Fprintf(os.Stderr, "C06: %v (request %s)\n", err, reqs[i])
-			os.Exit(2)
+	var mu sync.Mutex
+	var firstErr error
+	c06Parallel(len(res), workers, func(lo, hi int) {
+		for i := lo; i < hi; i++ {
+			rp, err := c06ParseReply(replies[i])
+			if err == nil {
+				res[i].reply = rp
+				res[i].verdict, err = c06Judge(res[i].hist, res[i].obs, rp)
+			}
+			if err != nil {
+				mu.Lock()
+				if firstErr == nil {
+					firstErr = fmt.Errorf("%v (request %s)", err, reqs[i])
+				}
+				mu.Unlock()
+			}
+			hsum := fnv.New64a()
+			_, _ = hsum.Write([]byte(res[i].request))
+			res[i].key = strconv.FormatUint(hsum.Sum64(), 36)
 		}
-		res[i].reply = rp
-		v, merr := c06Judge(res[i].hist, res[i].obs, rp)
-		if merr != nil {
-			fmt.Fprintf(os.Stderr, "C06: %v\n", merr)
-			os.Exit(2)
-		}
-		res[i].verdict = v
+	})
+	if firstErr != nil {
+		fmt.Fprintf(os.Stderr, "C06: %v\n", firstErr)
+		os.Exit(2)
 	}
 	return res
 }
@@ -1153,8 +1284,7 @@ func runC06(c *lib.Ctx) {
 	report := func(results []c06Result, sweep bool, family string) {
 		shrunk := 0
 		for _, r := range results {
-			key := r.hist.lisp()
-			c.Ev.Case(key, r.verdict.Nontrivial)
+			c.Ev.Case(r.key, r.verdict.Nontrivial)
 			c.Ev.Hist("history_length", strconv.Itoa(len(r.hist.Steps)-r.hist.Setup))
 			c.Ev.Count("steps_checked", r.verdict.Checked)
 			if r.verdict.Circular {
@@ -1211,7 +1341,7 @@ func runC06(c *lib.Ctx) {
 	// composite generators avoid the construct of the listed findings (never excused there)
 	avoidListed := c.Findings.Listed(c.Prop, "creator=")
 	c.Ev.Coverage["composite_avoids_second_in_place_extension"] = avoidListed
-	nRandom := c.Scale(40000, 600000)
+	nRandom := c.Scale(40000, 400000)
 	batch := 20000
 	total := 0
 	for total < nRandom {
@@ -1234,6 +1364,26 @@ func runC06(c *lib.Ctx) {
 		total += n
 	}
 	c.Ev.Coverage["random_histories"] = total
+
+	// 3. composite histories: bounded-exhaustive over reduced alphabets (thorough tier)
+	if c.Thorough() {
+		back := map[string]bool{"cdr": true, "remove": true, "add": true, "nconc": true, "sort": true, "cons": true, "delete": true, "nreverse": true}
+		wide := []string{"cons:$v,$1", "push:$v,$1", "append:$1,$2", "cdr:$1", "nthcdr:2,$1", "pop:$1", "last:2,$1", "member:4,$1",
+			"butlast:1,$1", "subseq:1,3,$1", "copylist:$1", "reverse:$1", "remove:eq:2,$1", "mapcar:inc,$1", "liststar:$v,$w,$1",
+			"rplaca:$1,$v", "setnth:1,$1,$v", "setelt:0,$1,$v", "rplacd:$1,$2", "nconc:$1,$2", "add:$1,$v", "nreverse:$1", "sort:$1", "delete:eq:2,$1"}
+		narrow := []string{"cons:$v,$1", "append:$1,$2", "cdr:$1", "butlast:1,$1", "subseq:1,3,$1", "remove:eq:2,$1",
+			"setnth:1,$1,$v", "rplacd:$1,$2", "nconc:$1,$2", "add:$1,$v", "sort:$1", "pop:$1"}
+		exh := 0
+		emit := func(hs []c06Hist) { report(c06RunBatch(c, hs, workers), false, "exhaustive") }
+		a2 := c06Alphabet(wide, []string{"a", "b", "d", "f", "$last"}, back)
+		exh += c06Exhaustive(a2, 2, []int{0, 1, 2, 3, 4, 5}, avoidListed, batch, emit)
+		a3 := c06Alphabet(wide, []string{"a", "b", "$last"}, map[string]bool{"add": true, "cdr": true})
+		exh += c06Exhaustive(a3, 3, []int{1, 2}, avoidListed, batch, emit)
+		a4 := c06Alphabet(narrow, []string{"a", "$last"}, nil)
+		exh += c06Exhaustive(a4, 4, []int{1}, avoidListed, batch, emit)
+		c.Ev.Coverage["exhaustive_histories"] = exh
+		c.Ev.Coverage["exhaustive_alphabets"] = map[string]int{"depth2": len(a2), "depth3": len(a3), "depth4": len(a4)}
+	}
 	c.Ev.Coverage["traces_validated_against_impl"] = c.Ev.Coverage["steps_checked"]
 	c.Ev.Coverage["rule"] = "case = operation history over a pool of named lists; after every step the result and the contents of every live variable are compared: result = value-level model on the implementation's current argument values; a variable may differ from its previous print only if the cons-cell heap model says it may; extending operations never overwrite. non-trivial = the history applies a destructive or extending operation to a list that has another live reference; distinct by history text"
 }
